@@ -520,6 +520,19 @@ func (c *Ctx) definitelyNonNil(v ssa.Value, r *ssa.Return, depth int) (bool, str
 		case strings.HasSuffix(n, "core.msgPool).Get"), strings.HasSuffix(n, "core.fragPool).Get"):
 			return true, "pool Get (type-asserted / allocated)"
 		}
+		// a module function with one result, each of whose returns is non-nil (`resp := newRequestMsg(c, msg, n)`)
+		if h := x.Call.StaticCallee(); h != nil && p.ownFunc(h) && h.Blocks != nil && h.Signature.Results().Len() == 1 {
+			all, nr := true, 0
+			for _, hr := range returnsReachable(h) {
+				nr++
+				if ok, _ := c.definitelyNonNil(results(hr.(*ssa.Return))[0], hr.(*ssa.Return), depth+1); !ok {
+					all = false
+				}
+			}
+			if all && nr > 0 {
+				return true, "every return of " + shortFn(h) + " is non-nil"
+			}
+		}
 	}
 	// guarded by v != nil on the way to r
 	if guardHas(guardsOf(r), func(g Guard) bool {
